@@ -545,6 +545,16 @@ impl<W: WorldOps> Engine<W> {
         let Some(slot) = self.worlds[wi].take() else { return };
         let Slot { w, m } = slot;
         let live = m.live_count();
+        // a leaked (mem::forget) runtime-borrow guard does not own anything: the world must still
+        // drop every component when it goes away
+        if live > 0 && self.rng.chance(1, 3) {
+            let pop: Vec<usize> = (0..self.archs.len()).filter(|i| !m.archs[*i].live.is_empty()).collect();
+            let ai = *self.rng.pick(&pop);
+            let mutable = self.rng.chance(1, 2);
+            self.archs[ai].leak_guards(&w, mutable);
+            self.rep.log_op(format!("w{} leak {} guards of every column of {}", m.id, if mutable { "mutable" } else { "shared" }, self.archs[ai].name()));
+            self.rep.count("drop_world.after_leaked_guards");
+        }
         self.rep.log_op(format!("w{} drop_world live={live}", m.id));
         self.rep.count("op.drop_world");
         self.rep.count(if live == 0 { "drop_world.empty" } else { "drop_world.populated" });
